@@ -154,6 +154,7 @@ def check(ctx):
     ctx.attempt(half_plus_q_contexts, ELEMENT_SEPARATORS)
     ctx.attempt(common.parallel_shapes, [f for f in ctx.repo.funcs.values() if f.module.name.endswith(('tract.tract_parse', 'tract.tract', 'unpack.unpackers'))])
     ctx.attempt(common.config_words, plss=('suppress_lot_divs', 'parse_qq'), tract=('suppress_lot_divs', 'parse_qq'))
+    ctx.attempt(common.cut_out_spans, ctx.repo.func('TractParser.parse'))
 
 
 def _dups(ctx):
